@@ -92,3 +92,9 @@ func runGuardTable(c *Ctx, rule string, ge *GuardEngine, table []GuardReq) {
 		ge.CheckReq(c, rule, r, gs)
 	}
 }
+
+// notSpentPat: "the element with ID <x> is not in the block's spent set", in any of the spellings the MidState
+// offers (isSpent, the two-result spent, a direct lookup).
+func notSpentPat(x string) string {
+	return "(?:" + pat("call (consensus.MidState).isSpent("+x+") is false") + "|" + pat("call (consensus.MidState).spent("+x+")#1 is false") + "|" + pat("ok:%MS%.spends["+x+"] is false") + ")"
+}
